@@ -12,125 +12,497 @@ theorem all_congr_mem {α} (l : List α) (f g : α → Bool) (h : ∀ x ∈ l, f
     simp only [List.all_cons]
     rw [h a (List.mem_cons_self ..), ih (fun x hx => h x (List.mem_cons_of_mem _ hx))]
 
-theorem strip_mapQ (f : Qual → Qual) : ∀ e : QExpr, (e.mapQ f).strip = e.strip
-  | .col _ _ => rfl
-  | .lit _ => rfl
-  | .bin _ a b => by simp [QExpr.mapQ, QExpr.strip, strip_mapQ f a, strip_mapQ f b]
-  | .not a => by simp [QExpr.mapQ, QExpr.strip, strip_mapQ f a]
-  | .neg a => by simp [QExpr.mapQ, QExpr.strip, strip_mapQ f a]
-  | .isNull a => by simp [QExpr.mapQ, QExpr.strip, strip_mapQ f a]
-  | .ite c t e => by simp [QExpr.mapQ, QExpr.strip, strip_mapQ f c, strip_mapQ f t, strip_mapQ f e]
+theorem quals_mapQ (f : Qual → Qual) : ∀ e : QExpr, (e.mapQ f).quals = e.quals.map f := by
+  intro e
+  induction e with
+  | col q n => rfl
+  | lit v => rfl
+  | tok r d => rfl
+  | bin op a b iha ihb => simp [QExpr.mapQ, QExpr.quals, iha, ihb]
+  | not a ih => simp [QExpr.mapQ, QExpr.quals, ih]
+  | neg a ih => simp [QExpr.mapQ, QExpr.quals, ih]
+  | isNull a ih => simp [QExpr.mapQ, QExpr.quals, ih]
+  | ite c t e ihc iht ihe => simp [QExpr.mapQ, QExpr.quals, ihc, iht, ihe]
+  | inList a vs ih => simp [QExpr.mapQ, QExpr.quals, ih]
+  | like a p ih => simp [QExpr.mapQ, QExpr.quals, ih]
+  | inSub a s w iha ihs ihw => simp [QExpr.mapQ, QExpr.quals, iha, ihs, ihw]
+  | exists_ w ih => simp [QExpr.mapQ, QExpr.quals, ih]
 
-theorem quals_mapQ (f : Qual → Qual) : ∀ e : QExpr, (e.mapQ f).quals = e.quals.map f
-  | .col _ _ => rfl
-  | .lit _ => rfl
-  | .bin _ a b => by simp [QExpr.mapQ, QExpr.quals, quals_mapQ f a, quals_mapQ f b]
-  | .not a => by simp [QExpr.mapQ, QExpr.quals, quals_mapQ f a]
-  | .neg a => by simp [QExpr.mapQ, QExpr.quals, quals_mapQ f a]
-  | .isNull a => by simp [QExpr.mapQ, QExpr.quals, quals_mapQ f a]
-  | .ite c t e => by simp [QExpr.mapQ, QExpr.quals, quals_mapQ f c, quals_mapQ f t, quals_mapQ f e]
+/-- an expression over the row's own values has no reference inside a subquery -/
+theorem flat_noCapture (oc : List Name) : ∀ e : QExpr, e.flat = true → e.noCapture oc false = true := by
+  intro e
+  induction e with
+  | col q n => intro _; simp [QExpr.noCapture]
+  | lit v => intro _; rfl
+  | tok r d => intro _; rfl
+  | bin op a b iha ihb => intro h; simp only [QExpr.flat, Bool.and_eq_true] at h; simp [QExpr.noCapture, iha h.1, ihb h.2]
+  | not a ih => intro h; exact ih h
+  | neg a ih => intro h; exact ih h
+  | isNull a ih => intro h; exact ih h
+  | ite c t e ihc iht ihe =>
+    intro h; simp only [QExpr.flat, Bool.and_eq_true] at h
+    simp [QExpr.noCapture, ihc h.1.1, iht h.1.2, ihe h.2]
+  | inList a vs ih => intro h; exact ih h
+  | like a p ih => intro h; exact ih h
+  | inSub a s w _ _ _ => intro h; simp [QExpr.flat] at h
+  | exists_ w _ => intro h; simp [QExpr.flat] at h
 
-/-- a reference the user can write resolves, after the loop, in the statement on the physical table -/
-theorem qmap_scope (m : Qual → Bool) (to : Qual) (hc : m .cte = true) (ht : to = .phys) (q : Qual)
-    (hq : userScope q = true) : dmlScope (qmap m to q) = true := by
+/-! ### the re-qualification rewrite preserves values and binding -/
+
+/-- one reference: re-targeting `table['c']` (and, when the loop also matches bare names, a bare name
+    that no enclosing subquery could claim) to the physical table reads the same value -/
+theorem resolve_qmap (m : Qual → Bool) (to : Qual) (ht : to = .phys) (hs : m .sub = false)
+    (O : Table) (cols : List Name) (r : Row) (inner : List Row) (q : Qual) (n : Name)
+    (hcap : m .none = false ∨ (QExpr.col q n).noCapture O.cols (!inner.isEmpty) = true) :
+    resolve O cols r inner (qmap m to q) n = resolve O cols r inner q n := by
   subst ht
   cases q with
-  | none => by_cases h : m .none = true <;> simp [qmap, h, dmlScope]
-  | cte => simp [qmap, hc, dmlScope]
-  | phys => simp [userScope] at hq
-  | other => simp [userScope] at hq
+  | none =>
+    by_cases hm : m .none = true
+    · have hc : (QExpr.col Qual.none n).noCapture O.cols (!inner.isEmpty) = true := by
+        rcases hcap with h | h
+        · rw [hm] at h; exact absurd h (by decide)
+        · exact h
+      cases inner with
+      | nil => simp [qmap, hm, resolve]
+      | cons i rest =>
+        simp [QExpr.noCapture] at hc
+        simp [qmap, hm, resolve, hc]
+    · simp [qmap, hm]
+  | sub => simp [qmap, hs]
+  | cte => by_cases hm : m .cte = true <;> simp [qmap, hm, resolve]
+  | phys => by_cases hm : m .phys = true <;> simp [qmap, hm]
+  | other => by_cases hm : m .other = true <;> simp [qmap, hm, resolve]
 
-theorem bindable_requal (m : Qual → Bool) (to : Qual) (hc : m .cte = true) (ht : to = .phys)
-    (cols : List Name) (e : QExpr) (hq : ∀ q ∈ e.quals, userScope q = true) :
-    bindable dmlScope cols (e.mapQ (qmap m to)) = refsIn cols e.strip := by
-  have h1 : ((e.mapQ (qmap m to)).quals.all dmlScope) = true := by
-    rw [quals_mapQ]
-    simp only [List.all_map, List.all_eq_true, Function.comp]
-    intro q hqm
-    exact qmap_scope m to hc ht q (hq q hqm)
-  simp [bindable, h1, strip_mapQ, refsIn]
+theorem evalS_requal (m : Qual → Bool) (to : Qual) (ht : to = .phys) (hs : m .sub = false)
+    (O : Table) (cols : List Name) (r : Row) :
+    ∀ (e : QExpr) (inner : List Row), (m .none = false ∨ e.noCapture O.cols (!inner.isEmpty) = true) →
+      evalS O cols r (e.mapQ (qmap m to)) inner = evalS O cols r e inner := by
+  intro e
+  induction e with
+  | col q n => intro inner h; simp only [QExpr.mapQ, evalS]; exact resolve_qmap m to ht hs O cols r inner q n h
+  | lit v => intro _ _; rfl
+  | tok rw d => intro _ _; rfl
+  | bin op a b iha ihb =>
+    intro inner h
+    have h' : (m .none = false ∨ a.noCapture O.cols (!inner.isEmpty) = true) ∧ (m .none = false ∨ b.noCapture O.cols (!inner.isEmpty) = true) := by
+      rcases h with h | h
+      · exact ⟨Or.inl h, Or.inl h⟩
+      · simp only [QExpr.noCapture, Bool.and_eq_true] at h; exact ⟨Or.inr h.1, Or.inr h.2⟩
+    simp only [QExpr.mapQ, evalS, iha inner h'.1, ihb inner h'.2]
+  | not a ih => intro inner h; simp only [QExpr.mapQ, evalS, ih inner h]
+  | neg a ih => intro inner h; simp only [QExpr.mapQ, evalS, ih inner h]
+  | isNull a ih => intro inner h; simp only [QExpr.mapQ, evalS, ih inner h]
+  | ite c t e ihc iht ihe =>
+    intro inner h
+    have h' : (m .none = false ∨ c.noCapture O.cols (!inner.isEmpty) = true) ∧ (m .none = false ∨ t.noCapture O.cols (!inner.isEmpty) = true)
+        ∧ (m .none = false ∨ e.noCapture O.cols (!inner.isEmpty) = true) := by
+      rcases h with h | h
+      · exact ⟨Or.inl h, Or.inl h, Or.inl h⟩
+      · simp only [QExpr.noCapture, Bool.and_eq_true] at h; exact ⟨Or.inr h.1.1, Or.inr h.1.2, Or.inr h.2⟩
+    simp only [QExpr.mapQ, evalS, ihc inner h'.1, iht inner h'.2.1, ihe inner h'.2.2]
+  | inList a vs ih => intro inner h; simp only [QExpr.mapQ, evalS, ih inner h]
+  | like a p ih => intro inner h; simp only [QExpr.mapQ, evalS, ih inner h]
+  | inSub a s w iha ihs ihw =>
+    intro inner h
+    have h' : (m .none = false ∨ a.noCapture O.cols (!inner.isEmpty) = true) ∧ (m .none = false ∨ s.noCapture O.cols true = true)
+        ∧ (m .none = false ∨ w.noCapture O.cols true = true) := by
+      rcases h with h | h
+      · exact ⟨Or.inl h, Or.inl h, Or.inl h⟩
+      · simp only [QExpr.noCapture, Bool.and_eq_true] at h; exact ⟨Or.inr h.1.1, Or.inr h.1.2, Or.inr h.2⟩
+    have e1 : (fun i => isTrue (evalS O cols r (w.mapQ (qmap m to)) (i :: inner))) = (fun i => isTrue (evalS O cols r w (i :: inner))) := by
+      funext i; rw [ihw (i :: inner) (by simpa using h'.2.2)]
+    have e2 : (fun i => evalS O cols r (s.mapQ (qmap m to)) (i :: inner)) = (fun i => evalS O cols r s (i :: inner)) := by
+      funext i; rw [ihs (i :: inner) (by simpa using h'.2.1)]
+    simp only [QExpr.mapQ, evalS, iha inner h'.1, e1, e2]
+  | exists_ w ih =>
+    intro inner h
+    have h' : m .none = false ∨ w.noCapture O.cols true = true := by
+      rcases h with h | h
+      · exact Or.inl h
+      · exact Or.inr (by simpa [QExpr.noCapture] using h)
+    have e1 : (fun i => isTrue (evalS O cols r (w.mapQ (qmap m to)) (i :: inner))) = (fun i => isTrue (evalS O cols r w (i :: inner))) := by
+      funext i; rw [ih (i :: inner) (by simpa using h')]
+    simp only [QExpr.mapQ, evalS, e1]
 
-theorem rejects_false (m : Qual → Bool) (er : Bool) (hc : m .cte = true) (e : QExpr)
-    (hq : ∀ q ∈ e.quals, userScope q = true)
-    (h : er = false ∨ m .none = true ∨ Qual.none ∉ e.quals) : rejects m er e = false := by
-  rcases h with h | h | h
+theorem binds_requal (m : Qual → Bool) (to : Qual) (hc : m .cte = true) (ht : to = .phys) (hs : m .sub = false)
+    (ocols cols : List Name) :
+    ∀ (e : QExpr) (ins : Bool), (∀ q ∈ e.quals, userScope q = true) → (m .none = false ∨ e.noCapture ocols ins = true) →
+      binds dmlScope ocols cols (e.mapQ (qmap m to)) ins = binds userScope ocols cols e ins := by
+  subst ht
+  intro e
+  induction e with
+  | col q n =>
+    intro ins hq h
+    have hu := hq q (by simp [QExpr.quals])
+    cases q with
+    | none =>
+      by_cases hm : m .none = true
+      · have hc' : (QExpr.col Qual.none n).noCapture ocols ins = true := by
+          rcases h with h | h
+          · rw [hm] at h; exact absurd h (by decide)
+          · exact h
+        simp [QExpr.noCapture] at hc'
+        cases ins with
+        | false => simp [QExpr.mapQ, qmap, hm, binds, dmlScope]
+        | true =>
+          have : n ∉ ocols := by simpa using hc'
+          simp [QExpr.mapQ, qmap, hm, binds, dmlScope, this]
+      · simp [QExpr.mapQ, qmap, hm, binds]
+    | cte => simp [QExpr.mapQ, qmap, hc, binds, dmlScope, userScope]
+    | sub => simp [QExpr.mapQ, qmap, hs, binds]
+    | phys => simp [userScope] at hu
+    | other => simp [userScope] at hu
+  | lit v => intro _ _ _; rfl
+  | tok rw d => intro _ _ _; rfl
+  | bin op a b iha ihb =>
+    intro ins hq h
+    have hqa : ∀ q ∈ a.quals, userScope q = true := fun q hq' => hq q (by simp [QExpr.quals, hq'])
+    have hqb : ∀ q ∈ b.quals, userScope q = true := fun q hq' => hq q (by simp [QExpr.quals, hq'])
+    have h' : (m .none = false ∨ a.noCapture ocols ins = true) ∧ (m .none = false ∨ b.noCapture ocols ins = true) := by
+      rcases h with h | h
+      · exact ⟨Or.inl h, Or.inl h⟩
+      · simp only [QExpr.noCapture, Bool.and_eq_true] at h; exact ⟨Or.inr h.1, Or.inr h.2⟩
+    simp only [QExpr.mapQ, binds, iha ins hqa h'.1, ihb ins hqb h'.2]
+  | not a ih => intro ins hq h; simp only [QExpr.mapQ, binds]; exact ih ins hq h
+  | neg a ih => intro ins hq h; simp only [QExpr.mapQ, binds]; exact ih ins hq h
+  | isNull a ih => intro ins hq h; simp only [QExpr.mapQ, binds]; exact ih ins hq h
+  | ite c t e ihc iht ihe =>
+    intro ins hq h
+    have hqc : ∀ q ∈ c.quals, userScope q = true := fun q hq' => hq q (by simp [QExpr.quals, hq'])
+    have hqt : ∀ q ∈ t.quals, userScope q = true := fun q hq' => hq q (by simp [QExpr.quals, hq'])
+    have hqe : ∀ q ∈ e.quals, userScope q = true := fun q hq' => hq q (by simp [QExpr.quals, hq'])
+    have h' : (m .none = false ∨ c.noCapture ocols ins = true) ∧ (m .none = false ∨ t.noCapture ocols ins = true)
+        ∧ (m .none = false ∨ e.noCapture ocols ins = true) := by
+      rcases h with h | h
+      · exact ⟨Or.inl h, Or.inl h, Or.inl h⟩
+      · simp only [QExpr.noCapture, Bool.and_eq_true] at h; exact ⟨Or.inr h.1.1, Or.inr h.1.2, Or.inr h.2⟩
+    simp only [QExpr.mapQ, binds, ihc ins hqc h'.1, iht ins hqt h'.2.1, ihe ins hqe h'.2.2]
+  | inList a vs ih => intro ins hq h; simp only [QExpr.mapQ, binds]; exact ih ins hq h
+  | like a p ih => intro ins hq h; simp only [QExpr.mapQ, binds]; exact ih ins hq h
+  | inSub a s w iha ihs ihw =>
+    intro ins hq h
+    have hqa : ∀ q ∈ a.quals, userScope q = true := fun q hq' => hq q (by simp [QExpr.quals, hq'])
+    have hqs : ∀ q ∈ s.quals, userScope q = true := fun q hq' => hq q (by simp [QExpr.quals, hq'])
+    have hqw : ∀ q ∈ w.quals, userScope q = true := fun q hq' => hq q (by simp [QExpr.quals, hq'])
+    have h' : (m .none = false ∨ a.noCapture ocols ins = true) ∧ (m .none = false ∨ s.noCapture ocols true = true)
+        ∧ (m .none = false ∨ w.noCapture ocols true = true) := by
+      rcases h with h | h
+      · exact ⟨Or.inl h, Or.inl h, Or.inl h⟩
+      · simp only [QExpr.noCapture, Bool.and_eq_true] at h; exact ⟨Or.inr h.1.1, Or.inr h.1.2, Or.inr h.2⟩
+    simp only [QExpr.mapQ, binds, iha ins hqa h'.1, ihs true hqs h'.2.1, ihw true hqw h'.2.2]
+  | exists_ w ih =>
+    intro ins hq h
+    have h' : m .none = false ∨ w.noCapture ocols true = true := by
+      rcases h with h | h
+      · exact Or.inl h
+      · exact Or.inr (by simpa [QExpr.noCapture] using h)
+    simp only [QExpr.mapQ, binds]
+    exact ih true hq h'
+
+/-! ### reading SQL text -/
+
+theorem unescape_id : ∀ l : List Char, '\\' ∉ l → unescape l = l := by
+  intro l
+  induction l with
+  | nil => intro _; rfl
+  | cons c rest ih =>
+    intro h
+    have hc : c ≠ '\\' := fun hc => h (by simp [hc])
+    have hr : '\\' ∉ rest := fun hr => h (List.mem_cons_of_mem _ hr)
+    rw [unescape.eq_def]
+    simp [hc, ih hr]
+
+/-- Spark SQL's own lexer reads every token the way the specification does -/
+theorem readTok_spark : ∀ e : QExpr, e.readTok sparkLex = e := by
+  intro e
+  induction e with
+  | col q n => rfl
+  | lit v => rfl
+  | tok r d => simp [QExpr.readTok, sparkLex]
+  | bin op a b iha ihb => simp [QExpr.readTok, iha, ihb]
+  | not a ih => simp [QExpr.readTok, ih]
+  | neg a ih => simp [QExpr.readTok, ih]
+  | isNull a ih => simp [QExpr.readTok, ih]
+  | ite c t e ihc iht ihe => simp [QExpr.readTok, ihc, iht, ihe]
+  | inList a vs ih => simp [QExpr.readTok, ih]
+  | like a p ih => simp [QExpr.readTok, ih]
+  | inSub a s w iha ihs ihw => simp [QExpr.readTok, iha, ihs, ihw]
+  | exists_ w ih => simp [QExpr.readTok, ih]
+
+/-- a text without double-quoted tokens and backslashes: every lexer's reading has the same
+    references, … -/
+theorem readTok_plain_quals (lx : Lex) : ∀ e : QExpr, e.plainToks = true → (e.readTok lx).quals = e.quals := by
+  intro e
+  induction e with
+  | col q n => intro _; rfl
+  | lit v => intro _; rfl
+  | tok r d =>
+    intro h
+    simp only [QExpr.plainToks, Bool.and_eq_true, Bool.not_eq_true'] at h
+    simp only [QExpr.readTok, h.1, Bool.false_and]
+    cases lx.escapes <;> rfl
+  | bin op a b iha ihb => intro h; simp only [QExpr.plainToks, Bool.and_eq_true] at h; simp [QExpr.readTok, QExpr.quals, iha h.1, ihb h.2]
+  | not a ih => intro h; exact ih h
+  | neg a ih => intro h; exact ih h
+  | isNull a ih => intro h; exact ih h
+  | ite c t e ihc iht ihe =>
+    intro h; simp only [QExpr.plainToks, Bool.and_eq_true] at h
+    simp [QExpr.readTok, QExpr.quals, ihc h.1.1, iht h.1.2, ihe h.2]
+  | inList a vs ih => intro h; exact ih h
+  | like a p ih => intro h; exact ih h
+  | inSub a s w iha ihs ihw =>
+    intro h; simp only [QExpr.plainToks, Bool.and_eq_true] at h
+    simp [QExpr.readTok, QExpr.quals, iha h.1.1, ihs h.1.2, ihw h.2]
+  | exists_ w ih => intro h; simp only [QExpr.readTok, QExpr.quals]; exact ih h
+
+/-- … the same capture profile, … -/
+theorem readTok_plain_noCapture (lx : Lex) (oc : List Name) :
+    ∀ (e : QExpr) (ins : Bool), e.plainToks = true → (e.readTok lx).noCapture oc ins = e.noCapture oc ins := by
+  intro e
+  induction e with
+  | col q n => intro _ _; rfl
+  | lit v => intro _ _; rfl
+  | tok r d =>
+    intro ins h
+    simp only [QExpr.plainToks, Bool.and_eq_true, Bool.not_eq_true'] at h
+    simp only [QExpr.readTok, h.1, Bool.false_and]
+    cases lx.escapes <;> rfl
+  | bin op a b iha ihb => intro ins h; simp only [QExpr.plainToks, Bool.and_eq_true] at h; simp [QExpr.readTok, QExpr.noCapture, iha ins h.1, ihb ins h.2]
+  | not a ih => intro ins h; exact ih ins h
+  | neg a ih => intro ins h; exact ih ins h
+  | isNull a ih => intro ins h; exact ih ins h
+  | ite c t e ihc iht ihe =>
+    intro ins h; simp only [QExpr.plainToks, Bool.and_eq_true] at h
+    simp [QExpr.readTok, QExpr.noCapture, ihc ins h.1.1, iht ins h.1.2, ihe ins h.2]
+  | inList a vs ih => intro ins h; exact ih ins h
+  | like a p ih => intro ins h; exact ih ins h
+  | inSub a s w iha ihs ihw =>
+    intro ins h; simp only [QExpr.plainToks, Bool.and_eq_true] at h
+    simp [QExpr.readTok, QExpr.noCapture, iha ins h.1.1, ihs true h.1.2, ihw true h.2]
+  | exists_ w ih => intro ins h; simp only [QExpr.readTok, QExpr.noCapture]; exact ih true h
+
+/-- … binds the same way, … -/
+theorem readTok_plain_binds (lx : Lex) (sc : Qual → Bool) (oc cols : List Name) :
+    ∀ (e : QExpr) (ins : Bool), e.plainToks = true → binds sc oc cols (e.readTok lx) ins = binds sc oc cols e ins := by
+  intro e
+  induction e with
+  | col q n => intro _ _; rfl
+  | lit v => intro _ _; rfl
+  | tok r d =>
+    intro ins h
+    simp only [QExpr.plainToks, Bool.and_eq_true, Bool.not_eq_true'] at h
+    simp only [QExpr.readTok, h.1, Bool.false_and]
+    cases lx.escapes <;> rfl
+  | bin op a b iha ihb => intro ins h; simp only [QExpr.plainToks, Bool.and_eq_true] at h; simp [QExpr.readTok, binds, iha ins h.1, ihb ins h.2]
+  | not a ih => intro ins h; exact ih ins h
+  | neg a ih => intro ins h; exact ih ins h
+  | isNull a ih => intro ins h; exact ih ins h
+  | ite c t e ihc iht ihe =>
+    intro ins h; simp only [QExpr.plainToks, Bool.and_eq_true] at h
+    simp [QExpr.readTok, binds, ihc ins h.1.1, iht ins h.1.2, ihe ins h.2]
+  | inList a vs ih => intro ins h; exact ih ins h
+  | like a p ih => intro ins h; exact ih ins h
+  | inSub a s w iha ihs ihw =>
+    intro ins h; simp only [QExpr.plainToks, Bool.and_eq_true] at h
+    simp [QExpr.readTok, binds, iha ins h.1.1, ihs true h.1.2, ihw true h.2]
+  | exists_ w ih => intro ins h; simp only [QExpr.readTok, binds]; exact ih true h
+
+/-- … and the same value -/
+theorem readTok_plain_eval (lx : Lex) (O : Table) (cols : List Name) (r : Row) :
+    ∀ (e : QExpr) (inner : List Row), e.plainToks = true → evalS O cols r (e.readTok lx) inner = evalS O cols r e inner := by
+  intro e
+  induction e with
+  | col q n => intro _ _; rfl
+  | lit v => intro _ _; rfl
+  | tok rw d =>
+    intro inner h
+    simp only [QExpr.plainToks, Bool.and_eq_true, Bool.not_eq_true', decide_eq_true_eq] at h
+    simp only [QExpr.readTok, h.1, Bool.false_and]
+    cases lx.escapes
+    · simp [evalS, tokVal, unescape_id _ h.2]
+    · rfl
+  | bin op a b iha ihb => intro inner h; simp only [QExpr.plainToks, Bool.and_eq_true] at h; simp only [QExpr.readTok, evalS, iha inner h.1, ihb inner h.2]
+  | not a ih => intro inner h; simp only [QExpr.readTok, evalS, ih inner h]
+  | neg a ih => intro inner h; simp only [QExpr.readTok, evalS, ih inner h]
+  | isNull a ih => intro inner h; simp only [QExpr.readTok, evalS, ih inner h]
+  | ite c t e ihc iht ihe =>
+    intro inner h; simp only [QExpr.plainToks, Bool.and_eq_true] at h
+    simp only [QExpr.readTok, evalS, ihc inner h.1.1, iht inner h.1.2, ihe inner h.2]
+  | inList a vs ih => intro inner h; simp only [QExpr.readTok, evalS, ih inner h]
+  | like a p ih => intro inner h; simp only [QExpr.readTok, evalS, ih inner h]
+  | inSub a s w iha ihs ihw =>
+    intro inner h; simp only [QExpr.plainToks, Bool.and_eq_true] at h
+    have e1 : (fun i => isTrue (evalS O cols r (w.readTok lx) (i :: inner))) = (fun i => isTrue (evalS O cols r w (i :: inner))) := by
+      funext i; rw [ihw (i :: inner) h.2]
+    have e2 : (fun i => evalS O cols r (s.readTok lx) (i :: inner)) = (fun i => evalS O cols r s (i :: inner)) := by
+      funext i; rw [ihs (i :: inner) h.1.2]
+    simp only [QExpr.readTok, evalS, iha inner h.1.1, e1, e2]
+  | exists_ w ih =>
+    intro inner h
+    have e1 : (fun i => isTrue (evalS O cols r (w.readTok lx) (i :: inner))) = (fun i => isTrue (evalS O cols r w (i :: inner))) := by
+      funext i; rw [ih (i :: inner) h]
+    simp only [QExpr.readTok, evalS, e1]
+
+/-! ### the builder -/
+
+theorem rejects_false (m : Qual → Bool) (er : Bool) (e : QExpr)
+    (h : er = false ∨ ∀ q ∈ e.quals, m q = true) : rejects m er e = false := by
+  rcases h with h | h
   · simp [rejects, h]
   · simp only [rejects, Bool.and_eq_false_iff, List.any_eq_false]
     right
     intro q hqm
-    have := hq q hqm
-    cases q <;> simp_all [userScope]
-  · simp only [rejects, Bool.and_eq_false_iff, List.any_eq_false]
-    right
-    intro q hqm
-    have := hq q hqm
-    cases q with
-    | none => exact absurd hqm h
-    | cte => simp [hc]
-    | phys => simp [userScope] at this
-    | other => simp [userScope] at this
+    simp [h q hqm]
 
 theorem flagsOk_iff (fl : Flags) (h : flagsOk fl = true) :
     fl.defaultPred = true ∧ fl.predMatches .cte = true ∧ fl.predTo = .phys ∧ fl.predAliasStripped = true ∧
     fl.rhsMatches .cte = true ∧ fl.rhsTo = .phys ∧ fl.updateTarget = .phys ∧ fl.deleteTarget = .phys ∧
-    fl.buildExecutes = false ∧ fl.executeRuns = true := by
+    fl.buildExecutes = false ∧ fl.executeRuns = true ∧ fl.predMatches .sub = false ∧ fl.rhsMatches .sub = false := by
   simp only [flagsOk, Bool.and_eq_true, decide_eq_true_eq, Bool.not_eq_true'] at h
-  obtain ⟨⟨⟨⟨⟨⟨⟨⟨⟨⟨⟨h1, h2⟩, h3⟩, h4⟩, h5⟩, h6⟩, h7⟩, h8⟩, h9⟩, h10⟩, _⟩, _⟩ := h
-  exact ⟨h1, h2, h3, h4, h5, h6, h7, h8, h9, h10⟩
+  obtain ⟨⟨⟨⟨⟨⟨⟨⟨⟨⟨⟨⟨⟨h1, h2⟩, h3⟩, h4⟩, h5⟩, h6⟩, h7⟩, h8⟩, h9⟩, h10⟩, _⟩, _⟩, h13⟩, h14⟩ := h
+  exact ⟨h1, h2, h3, h4, h5, h6, h7, h8, h9, h10, h13, h14⟩
 
-/-- the predicate the builder produces means what the user wrote and binds iff the user's columns exist -/
-theorem buildPred_ok (fl : Flags) (hok : flagsOk fl = true) (p : PredIn) (cols : List Name)
+/-- the rewritten expression means, and binds, what the user's expression does -/
+theorem requal_ok (m : Qual → Bool) (to : Qual) (hc : m .cte = true) (ht : to = .phys) (hs : m .sub = false)
+    (O : Table) (cols : List Name) (x : QExpr) (hq : ∀ q ∈ x.quals, userScope q = true)
+    (hcap : m .none = false ∨ x.noCapture O.cols false = true) :
+    (∀ r, evalS O cols r (x.mapQ (qmap m to)) [] = evalS O cols r x []) ∧
+    binds dmlScope O.cols cols (x.mapQ (qmap m to)) false = binds userScope O.cols cols x false :=
+  ⟨fun r => evalS_requal m to ht hs O cols r x [] (by simpa using hcap),
+   binds_requal m to hc ht hs O.cols cols x false hq hcap⟩
+
+/-- the predicate the builder produces means what the user wrote and binds iff the user's references do -/
+theorem buildPred_ok (fl : Flags) (hok : flagsOk fl = true) (p : PredIn) (O : Table) (cols : List Name)
     (hq : ∀ q ∈ p.quals, userScope q = true)
-    (hun : fl.predElseRaises = false ∨ fl.predMatches .none = true ∨ Qual.none ∉ p.quals)
-    (hstr : fl.predStringParsed = true ∨ p.isSql = false) :
-    ∃ c, buildPred fl p = some (c, false) ∧ c.strip = specPred p ∧
-      bindable dmlScope cols c = refsIn cols (specPred p) := by
-  obtain ⟨hd, hpc, hpt, hps, _, _, _, _, _, _⟩ := flagsOk_iff fl hok
+    (hun : fl.predElseRaises = false ∨ ∀ q ∈ p.quals, fl.predMatches q = true)
+    (hstr : fl.predStringParsed = true ∨ p.isSql = false)
+    (hcap : fl.predMatches .none = false ∨ (specPred p).noCapture O.cols false = true)
+    (hdia : fl.predLex = sparkLex ∨ p.lexSensitive = false) :
+    ∃ c, buildPred fl p = some (c, false) ∧ (∀ r, evalS O cols r c [] = evalS O cols r (specPred p) []) ∧
+      binds dmlScope O.cols cols c false = binds userScope O.cols cols (specPred p) false := by
+  obtain ⟨hd, hpc, hpt, hps, _, _, _, _, _, _, hsub, _⟩ := flagsOk_iff fl hok
   cases p with
   | absent =>
     refine ⟨.lit (.bool fl.defaultPred), rfl, ?_, ?_⟩
-    · simp [QExpr.strip, specPred, hd]
-    · simp [bindable, QExpr.quals, QExpr.strip, Expr.refs, specPred, refsIn]
+    · intro r; simp [evalS, specPred, hd]
+    · simp [binds, specPred]
   | expr e al =>
-    have hr := rejects_false fl.predMatches fl.predElseRaises hpc e hq hun
-    refine ⟨e.mapQ (qmap fl.predMatches fl.predTo), ?_, strip_mapQ _ e, ?_⟩
-    · simp [buildPred, hr, hps]
-    · exact bindable_requal _ _ hpc hpt cols e hq
-  | sql e txt wrapped =>
-    have hparsed : (fl.predStringParsed || wrapped) = true := by
-      rcases hstr with h | h
-      · simp [h]
-      · simp only [PredIn.isSql, Bool.not_eq_false'] at h
-        simp [h]
-    have hr := rejects_false fl.predMatches fl.predElseRaises hpc e hq hun
-    refine ⟨e.mapQ (qmap fl.predMatches fl.predTo), ?_, strip_mapQ _ e, ?_⟩
-    · simp only [buildPred, hparsed, hr]
-      simp
-    · exact bindable_requal _ _ hpc hpt cols e hq
+    have hr := rejects_false fl.predMatches fl.predElseRaises e hun
+    obtain ⟨h1, h2⟩ := requal_ok fl.predMatches fl.predTo hpc hpt hsub O cols e hq hcap
+    exact ⟨e.mapQ (qmap fl.predMatches fl.predTo), by simp [buildPred, hr, hps], h1, h2⟩
+  | sql e txt wrapped bt =>
+    simp only [PredIn.quals] at hq hun
+    simp only [specPred] at hcap
+    by_cases hparsed : fl.predStringParsed = true
+    · -- the text goes through the lexer of `predLex`
+      have key : (bt && !fl.predLex.backtick) = false ∧ (e.readTok fl.predLex).quals = e.quals ∧
+          (∀ r inner, evalS O cols r (e.readTok fl.predLex) inner = evalS O cols r e inner) ∧
+          (∀ sc ins, binds sc O.cols cols (e.readTok fl.predLex) ins = binds sc O.cols cols e ins) ∧
+          (∀ ins, (e.readTok fl.predLex).noCapture O.cols ins = e.noCapture O.cols ins) := by
+        rcases hdia with h | h
+        · rw [h, readTok_spark]
+          exact ⟨by simp [sparkLex], rfl, fun _ _ => rfl, fun _ _ => rfl, fun _ => rfl⟩
+        · simp only [PredIn.lexSensitive, Bool.or_eq_false_iff, Bool.not_eq_false'] at h
+          exact ⟨by simp [h.1], readTok_plain_quals _ e h.2, fun r inner => readTok_plain_eval _ O cols r e inner h.2,
+            fun sc ins => readTok_plain_binds _ sc O.cols cols e ins h.2, fun ins => readTok_plain_noCapture _ O.cols e ins h.2⟩
+      obtain ⟨kb, kq, ke, kbi, kc⟩ := key
+      have hr := rejects_false fl.predMatches fl.predElseRaises (e.readTok fl.predLex) (by rw [kq]; exact hun)
+      obtain ⟨h1, h2⟩ := requal_ok fl.predMatches fl.predTo hpc hpt hsub O cols (e.readTok fl.predLex)
+        (by rw [kq]; exact hq) (by rw [kc]; exact hcap)
+      refine ⟨(e.readTok fl.predLex).mapQ (qmap fl.predMatches fl.predTo), ?_, ?_, ?_⟩
+      · simp [buildPred, hparsed, kb, hr]
+      · intro r; rw [h1 r, ke r []]; rfl
+      · rw [h2, kbi]; rfl
+    · -- the text is handed to `F.col`, which parses it (Spark's reading) when it is parenthesised
+      have hw : wrapped = true := by
+        rcases hstr with h | h
+        · exact absurd h hparsed
+        · simpa [PredIn.isSql] using h
+      have hr := rejects_false fl.predMatches fl.predElseRaises e hun
+      obtain ⟨h1, h2⟩ := requal_ok fl.predMatches fl.predTo hpc hpt hsub O cols e hq hcap
+      refine ⟨e.mapQ (qmap fl.predMatches fl.predTo), ?_, h1, h2⟩
+      simp [buildPred, hparsed, hw, hr]
 
-theorem buildSets_ok (fl : Flags) (hok : flagsOk fl = true) (sets : List (Name × QExpr)) (cols : List Name)
+theorem setLookup_map (g : QExpr → QExpr) : ∀ (sets : List (Name × QExpr)) (n : Name),
+    setLookup (sets.map (fun s => (s.1, g s.2))) n = (setLookup sets n).map g
+  | [], _ => rfl
+  | (k, e) :: rest, n => by
+    simp only [List.map_cons, setLookup]
+    by_cases h : k = n
+    · simp [h]
+    · simp [h, setLookup_map g rest n]
+
+theorem setLookup_mem : ∀ (sets : List (Name × QExpr)) (n : Name) (e : QExpr), setLookup sets n = some e → ∃ s ∈ sets, s.2 = e
+  | [], _, _, h => by simp [setLookup] at h
+  | (k, e') :: rest, n, e, h => by
+    simp only [setLookup] at h
+    by_cases hk : k = n
+    · simp only [hk, if_true, Option.some.injEq] at h
+      exact ⟨(k, e'), List.mem_cons_self .., h⟩
+    · simp only [hk, if_false] at h
+      obtain ⟨s, hs, he⟩ := setLookup_mem rest n e h
+      exact ⟨s, List.mem_cons_of_mem _ hs, he⟩
+
+theorem assignRow_map (g : QExpr → QExpr) (O : Table) (cols : List Name) (sets : List (Name × QExpr)) (r : Row)
+    (h : ∀ s ∈ sets, evalS O cols r (g s.2) [] = evalS O cols r s.2 []) :
+    assignRow O cols (sets.map (fun s => (s.1, g s.2))) r = assignRow O cols sets r := by
+  simp only [assignRow]
+  apply List.map_congr_left
+  intro cv _
+  rw [setLookup_map]
+  cases hl : setLookup sets cv.1 with
+  | none => rfl
+  | some e =>
+    obtain ⟨s, hs, he⟩ := setLookup_mem sets cv.1 e hl
+    simp only [Option.map_some]
+    rw [← he]; exact h s hs
+
+theorem sqlUpdate_congr (O T : Table) (sets sets' : List (Name × QExpr)) (p p' : QExpr)
+    (hp : ∀ r, evalS O T.cols r p' [] = evalS O T.cols r p [])
+    (hs : ∀ r, assignRow O T.cols sets' r = assignRow O T.cols sets r) :
+    sqlUpdate O T sets' p' = sqlUpdate O T sets p := by
+  simp only [sqlUpdate]
+  congr 1
+  apply List.map_congr_left
+  intro r _
+  rw [hp r, hs r]
+
+theorem sqlDelete_congr (O T : Table) (p p' : QExpr)
+    (hp : ∀ r, evalS O T.cols r p' [] = evalS O T.cols r p []) : sqlDelete O T p' = sqlDelete O T p := by
+  simp only [sqlDelete]
+  congr 1
+  apply List.filter_congr
+  intro r _
+  rw [hp r]
+
+theorem buildSets_ok (fl : Flags) (hok : flagsOk fl = true) (sets : List (Name × QExpr)) (O : Table) (cols : List Name)
     (hq : ∀ s ∈ sets, ∀ q ∈ s.2.quals, userScope q = true)
-    (hun : fl.rhsElseRaises = false ∨ fl.rhsMatches .none = true ∨ ∀ s ∈ sets, Qual.none ∉ s.2.quals) :
-    ∃ ss, buildSets fl sets = some ss ∧ ss.map (fun s => (s.1, s.2.strip)) = sets.map (fun s => (s.1, s.2.strip)) ∧
-      setsBind cols ss = (sets.all (fun s => decide (s.1 ∈ cols) && refsIn cols s.2.strip) && decide (sets.map (·.1)).Nodup) := by
-  obtain ⟨_, _, _, _, hrc, hrt, _, _, _, _⟩ := flagsOk_iff fl hok
+    (hflat : ∀ s ∈ sets, s.2.flat = true)
+    (hun : fl.rhsElseRaises = false ∨ ∀ s ∈ sets, ∀ q ∈ s.2.quals, fl.rhsMatches q = true) :
+    ∃ ss, buildSets fl sets = some ss ∧ (∀ r, assignRow O cols ss r = assignRow O cols sets r) ∧
+      setsBind dmlScope O.cols cols ss = setsBind userScope O.cols cols sets := by
+  obtain ⟨_, _, _, _, hrc, hrt, _, _, _, _, _, hsub⟩ := flagsOk_iff fl hok
   have hrej : sets.any (fun s => rejects fl.rhsMatches fl.rhsElseRaises s.2) = false := by
     simp only [List.any_eq_false]
     intro s hs
     have : rejects fl.rhsMatches fl.rhsElseRaises s.2 = false := by
-      apply rejects_false _ _ hrc s.2 (hq s hs)
-      rcases hun with h | h | h
+      apply rejects_false
+      rcases hun with h | h
       · exact Or.inl h
-      · exact Or.inr (Or.inl h)
-      · exact Or.inr (Or.inr (h s hs))
+      · exact Or.inr (h s hs)
     simp [this]
+  have hreq : ∀ s ∈ sets, (∀ r, evalS O cols r (s.2.mapQ (qmap fl.rhsMatches fl.rhsTo)) [] = evalS O cols r s.2 []) ∧
+      binds dmlScope O.cols cols (s.2.mapQ (qmap fl.rhsMatches fl.rhsTo)) false = binds userScope O.cols cols s.2 false :=
+    fun s hs => requal_ok fl.rhsMatches fl.rhsTo hrc hrt hsub O cols s.2 (hq s hs) (Or.inr (flat_noCapture O.cols s.2 (hflat s hs)))
   refine ⟨sets.map (fun s => (s.1, s.2.mapQ (qmap fl.rhsMatches fl.rhsTo))), ?_, ?_, ?_⟩
   · simp [buildSets, hrej]
-  · simp [List.map_map, Function.comp_def, strip_mapQ]
+  · intro r
+    exact assignRow_map _ O cols sets r (fun s hs => (hreq s hs).1 r)
   · simp only [setsBind, List.map_map, Function.comp_def, List.all_map]
     congr 1
     apply all_congr_mem
     intro s hs
-    rw [bindable_requal _ _ hrc hrt cols s.2 (hq s hs)]
+    rw [(hreq s hs).2]
 
 end Sqlframe.C15
